@@ -101,6 +101,7 @@ def run(ctx):
     sx_total = sx_class = 0
     strip_total = strip_ok = strip_real_ok = 0
     acts_total = acts_ok = ent_total = ent_canon = ent_shape = ent_expect = 0
+    odd_acts = odd_plain = 0
     wf_canon = wf_simples = simples_not_canon = near_all = near_ws = near_ws_canon_files = 0
     for line in out.split("\n"):
         if not line.strip():
@@ -138,6 +139,8 @@ def run(ctx):
         ent_shape += int(kv.get("shape", "0"))
         ent_expect += int(kv.get("expectok", "0"))
         wf_canon += kv.get("canonf") == "1"
+        odd_acts += int(kv.get("oddacts", "0"))
+        odd_plain += int(kv.get("oddplain", "0"))
         wf_simples += kv.get("simples") == "1"
         simples_not_canon += kv.get("simples") == "1" and kv.get("canonf") != "1"
         near_all += int(kv.get("nearall", "0"))
@@ -224,6 +227,10 @@ def run(ctx):
     ctx.oblige("inputs:near-delimiter-body-lines", ctx.replay or (near_ws >= need_files // 3 and near_ws_canon_files >= need_files // 5),
                "%d input lines that are a dash run followed by white space / the suffix with white space (not delimiters), in %d "
                "well-formed files; %d delimiter-like input lines in all" % (near_ws, near_ws_canon_files, near_all))
+    ctx.oblige("inputs:field-names-with-digits-or-upper-case", ctx.replay or (odd_acts >= need_files // 5 and odd_plain >= need_files // 10),
+               "%d error-free renderings with a field name that is not snake_case (zoo/fldx: arg1, argB, x_2, _rest9, Ret); %d tests "
+               "whose expectation for such a rendering is written without field names" % (odd_acts, odd_plain))
+    ctx.coverage["non_snake_case_field_names"] = {"renderings": odd_acts, "tests_with_fieldless_expectation": odd_plain}
     ctx.coverage["well_formedness_guard"] = {
         "files": evals, "canonical_form_reads_back": wf_canon, "SimpleS": wf_simples, "SimpleS_but_not_canonical": simples_not_canon,
         "delimiter_like_input_lines": near_all, "near_delimiter_whitespace_suffix_lines": near_ws,
